@@ -410,7 +410,7 @@ func (x *Explorer) intrinsic(fr *Frame, st *State, ins *ssa.Call, callee *ssa.Fu
 			return &CoinV{Denom: args[0], Amt: asInt(st, args[1])}, true
 		case "NewCoins":
 			if cs := x.coinsOf(st, args[0]); cs != nil {
-				return cs, true
+				return &CoinsV{Items: cs.Items, Sanitised: true}, true
 			}
 			return nil, false
 		case "Coin.IsLT", "Coin.IsGTE", "Coin.IsLTE", "Coin.IsGT":
